@@ -564,6 +564,18 @@ func (g *Gtp5g) RemovePDR(lSeid uint64, req *ie.IE) error {
 	return gtp5gnl.RemovePDROID(g.client, g.link.link, oid)
 }
 
+// outerHeaderCreation decodes an Outer Header Creation IE. The go-pfcp decoder
+// faults (index out of range) on a C-TAG or S-TAG field; that is reported as a
+// decoding error here instead of taking the event loop down.
+func outerHeaderCreation(x *ie.IE) (v *ie.OuterHeaderCreationFields, err error) {
+	defer func() {
+		if p := recover(); p != nil {
+			v, err = nil, errors.Errorf("OuterHeaderCreation: %v", p)
+		}
+	}()
+	return x.OuterHeaderCreation()
+}
+
 func (g *Gtp5g) newForwardingParameter(ies []*ie.IE) (nl.AttrList, error) {
 	var attrs nl.AttrList
 
@@ -572,7 +584,7 @@ func (g *Gtp5g) newForwardingParameter(ies []*ie.IE) (nl.AttrList, error) {
 		case ie.DestinationInterface:
 		case ie.NetworkInstance:
 		case ie.OuterHeaderCreation:
-			v, err := x.OuterHeaderCreation()
+			v, err := outerHeaderCreation(x)
 			if err != nil {
 				break
 			}
